@@ -7,7 +7,7 @@ project(env) -> {"reps": [observation, ...], "col": collector observation}   (fo
   reps[1..5]   impl "V1":   a fresh behave.reporter.summary.SummaryReporter per format v1 v1A v1B v2 v3, the format
                chosen through the documented userdata switch behave.reporter.summary.output_format, fed
                reporter.feature(f) for every feature of the real model and end(); its stream is parsed;
-  reps[6..10]  impl "V2":   the same with SummaryReporterV2;
+  reps[6..10]  impl "V2":   the same with SummaryReporterV2 (unused class: recorded for comparison, never judged);
   col          behave.summary.SummaryCollector().visit_many(features): summary_counts per kind, failed / errored lists.
 Only numbers, status names and file:line locations are read -- one regular expression per documented line format.
 A crash of a reporter is recorded (`crashed` = exception type, `crash_at` = init / feature / end), never raised.
